@@ -40,6 +40,7 @@ namespace vf
             std::function<bool(World&, Errs&)> f;
         };
 
+        std::string san_kind = "asan";   // error kind used for sanitizer reports (a harness may route it, e.g. "C02:sanitizer")
         std::string prop;       // "C03"
         std::string inst;       // instantiation name ("u8/S10")
         std::vector<Op> ops;
@@ -125,7 +126,7 @@ namespace vf
                 {
                     Errs e;
                     check_state(worlds[size_t(id)], e);
-                    if (take_asan()) e.add("asan", "AddressSanitizer report while querying the initial state");
+                    if (take_asan()) e.add(san_kind, "AddressSanitizer/UBSan report while querying the initial state");
                     if (!e.empty())
                     {
                         report(e, id, -1, "initial state");
@@ -149,7 +150,7 @@ namespace vf
                     Errs e;
                     cur_node_ = int(cur); cur_op_ = int(oi); cur_phase_ = "during the operation";
                     bool ok = ops[oi].f(w, e);
-                    if (take_asan()) e.add("asan", "AddressSanitizer report during the operation");
+                    if (take_asan()) e.add(san_kind, "AddressSanitizer/UBSan report during the operation");
                     if (!ok && e.empty()) { ++inapplicable; continue; }
                     ++transitions;
                     auto& pk = per_kind[ops[oi].kind];
@@ -175,7 +176,7 @@ namespace vf
                         Errs q;
                         cur_phase_ = "while querying the state the operation produced";
                         check_state(worlds[size_t(id)], q);
-                        if (take_asan()) q.add("asan", "AddressSanitizer report while querying the state");
+                        if (take_asan()) q.add(san_kind, "AddressSanitizer/UBSan report while querying the state");
                         if (!q.empty())
                         {
                             ++viol_transitions;
@@ -219,7 +220,7 @@ namespace vf
             {
                 Errs e0;
                 check_state(w, e0);
-                if (take_asan()) e0.add("asan", "AddressSanitizer report while querying the initial state");
+                if (take_asan()) e0.add(san_kind, "AddressSanitizer/UBSan report while querying the initial state");
                 for (auto& kv : e0.v) violation(prop + "/" + inst + "/init/" + kv.first, "replay initial state: " + kv.second, {"--replay", inst, "@" + str(root)});
                 if (!e0.empty()) return true;
             }
@@ -231,13 +232,13 @@ namespace vf
                 if (oi < 0) { std::printf("replay: unknown operation '%s'\n", n.c_str()); return false; }
                 Errs e;
                 bool ok = ops[size_t(oi)].f(w, e);
-                if (take_asan()) e.add("asan", "AddressSanitizer report during the operation");
+                if (take_asan()) e.add(san_kind, "AddressSanitizer/UBSan report during the operation");
                 done_so_far += ";" + n;
                 if (!ok && e.empty()) { std::printf("replay: operation '%s' not applicable\n", n.c_str()); return false; }
                 if (e.empty())
                 {
                     check_state(w, e);
-                    if (take_asan()) e.add("asan", "AddressSanitizer report while querying the state");
+                    if (take_asan()) e.add(san_kind, "AddressSanitizer/UBSan report while querying the state");
                 }
                 std::printf("replay: %s -> key=%s %s\n", n.c_str(), jesc(w.key()).c_str(), e.empty() ? "ok" : "VIOLATION");
                 for (auto& kv : e.v)
